@@ -215,3 +215,78 @@ Fixpoint hist_admissible (p : params) (s : node) (ops : list nop) : bool :=
   | [] => true
   | o :: r => op_ok s o && match step p s o with Ok (s', _) => hist_admissible p s' r | Abort => true end
   end.
+
+(** * Preimages: which HTLC outputs of a confirmed commitment are the node's to claim
+    ([Channel::get_spendable_htlc_indices]) depends on the preimages the signer knows when the
+    commitment transaction is decoded.  This layer makes that dependency explicit: a block is
+    given with transactions whose classification may need a preimage, and is resolved against
+    the preimages the signer knows at that moment.  The signer learns preimages through
+    [Channel::htlcs_fulfilled] ([PFulfill]); they live in NodeState.payments and reach the store
+    with the node entry.  [fulfill_flush = true]: htlcs_fulfilled writes the node entry itself
+    (the code since the repair "persist the node entry when htlcs_fulfilled records a
+    preimage"); [false]: it does not, and the preimage survives a restart only if some later
+    request happened to write the node entry. *)
+Inductive pclose :=
+| PFixed (k : close_kind)
+| PNeeds (h : N) (known unknown : close_kind).     (* payment hash; classification with / without its preimage *)
+Record ptx := mkptx { p_id : N; p_ins : list outpoint; p_nout : N; p_close : pclose }.
+Definition resolve (kn : list N) (t : ptx) : tx :=
+  mktx (p_id t) (p_ins t) (p_nout t)
+       (match p_close t with
+        | PFixed k => k
+        | PNeeds h a b => if mem_N h kn then a else b
+        end).
+
+Record pnode := mkpnode {
+  pn : node;
+  known : list N;          (* preimages in NodeState.payments *)
+  known_disk : list N;     (* preimages in the stored node entry *)
+  given : list N;          (* bookkeeping: every preimage that was ever handed to the signer *)
+  pchain : list (list ptx) (* bookkeeping: the connected blocks as they were given, tip first *)
+}.
+Definition init_pnode (h : N) : pnode := mkpnode (init_node h) [] [] [] [].
+
+Inductive pop :=
+| PLift (o : nop)            (* an operation of the node; AddBlock with a block that needs no preimage *)
+| PAdd (b : list ptx)
+| PFulfill (h : N)
+| PWriteNode.                (* any other request that writes the node entry (add_invoice, add_keysend, ...) *)
+
+(** the node operations that write the node entry themselves: forget_channel when the mark
+    moves, setup_channel + signing the funding transaction *)
+Definition writes_node_entry (s : node) (o : nop) : bool :=
+  match o with
+  | Forget id => match cfind id (chans s) with Some _ => hwm s <? dbid id | None => false end
+  | Setup id _ _ => match cfind id (chans s) with Some (Stub _) => true | _ => false end
+  | _ => false
+  end.
+
+Definition pstep (ff : bool) (p : params) (s : pnode) (o : pop) : res (pnode * outcome) :=
+  match o with
+  | PLift o =>
+      '(n', out) <- step p (pn s) o ;;
+      let kn := match o with Restart => known_disk s | _ => known s end in
+      let kd := if writes_node_entry (pn s) o then kn else known_disk s in
+      let pc := match o, out with
+                | AddBlock b, Done => map (fun t => mkptx (tx_id t) (tx_ins t) (tx_nout t) (PFixed (tx_close t))) b :: pchain s
+                | RemoveBlock, Done => tl (pchain s)
+                | _, _ => pchain s
+                end in
+      Ok (mkpnode n' kn kd (given s) pc, out)
+  | PAdd b =>
+      '(n', out) <- step p (pn s) (AddBlock (map (resolve (known s)) b)) ;;
+      Ok (mkpnode n' (known s) (known_disk s) (given s) (b :: pchain s), out)
+  | PFulfill h =>
+      Ok (mkpnode (pn s) (h :: known s) (if ff then h :: known s else known_disk s) (h :: given s) (pchain s), Done)
+  | PWriteNode => Ok (mkpnode (pn s) (known s) (known s) (given s) (pchain s), Done)
+  end.
+
+Fixpoint prun (ff : bool) (p : params) (s : pnode) (ops : list pop) : res pnode :=
+  match ops with
+  | [] => Ok s
+  | o :: r => '(s', _) <- pstep ff p s o ;; prun ff p s' r
+  end.
+
+(** the chain as it really is: every transaction classified with the preimages that were
+    handed to the signer, oldest block first *)
+Definition true_chain (s : pnode) : list block := map (map (resolve (given s))) (rev (pchain s)).
